@@ -135,7 +135,7 @@ func run(c Case, k *ev.Case) *ev.Failure {
 		select {
 		case <-arrived:
 		case <-deadline:
-			return ev.Failf("harness", "only %d of %d calls reached the broker", got, n)
+			return ev.Failf("C16.1 call-missing", "5 s after %d callers started on a healthy connection only %d of their calls have reached the broker", n, got)
 		}
 	}
 	inc := w.Broker.CurrentInc()
